@@ -1657,7 +1657,7 @@ def __get_gettz():
                                 # To determine if a string contains a digit
                                 if c in "0123456789":
                                     try:
-                                        tz = tzstr(name)
+                                        tz = tzstr.instance(name)
                                     except ValueError:
                                         pass
                                     break
